@@ -5,7 +5,7 @@ import itertools
 from ..core import rule
 from ..index import AnalysisError, dotted, src, walk_no_nested, names_in
 from ..cfg import CFG, UNK
-from ..util import node_calls, own_expr, explore, mk_atoms, cfg_nodes_containing
+from ..util import node_calls, own_expr, explore, mk_atoms, cfg_nodes_containing, reach_conds, pred_is
 from .slots import ALLELES
 from .C01 import flatten
 
@@ -328,6 +328,19 @@ def r3(ctx):
     ctx.info(f'cache file name is built from chrom + {sorted(key_fields)}; compute path reads {sorted(config)}')
 
 
+def _holds_for_nonnegative(t_, pol, var):
+    """the condition (t_ with polarity pol) holds for every integer value >= 0 of var (evaluated on 0..3)"""
+    from ..domains import eval_pred
+    try:
+        for v in (0, 1, 2, 3):
+            r_ = bool(eval_pred(t_, {'p': v}, lambda x: 'p' if src(x) == var else None))
+            if r_ != pol:
+                return False
+        return True
+    except Exception:
+        return False
+
+
 @rule('C18', 'C18-R4', 'cache writer and reader agree on the record format; the cache is written atomically (temp file + rename) because an '
                        'existing cache file is trusted and write failures are swallowed')
 def r4(ctx):
@@ -349,6 +362,26 @@ def r4(ctx):
         and sample_split and sample_split[0].args[0].value == sep_w
     ctx.emit('C18-R4', ok, ALLELES, wr[0], f'writer: {nvals} tab separated fields, samples joined by {sep_w!r}; reader: unpacks {len(unpack[0].targets[0].elts) if unpack else 0} fields, '
              f'samples split on {sample_split[0].args[0].value if sample_split else None!r}', key='cache-format')
+    # the writer stores every real position: a filter on the way to the write may only exclude negative positions (the "contig loaded"
+    # placeholder lives at -1; stored positions are 0-based, so 0 is a real site)
+    wl = [l for l in walk_no_nested(w) if isinstance(l, ast.For) and any(x is wr[0] for x in ast.walk(l))]
+    okw = True
+    wdetail = 'no filter between the table and the write'
+    if wl:
+        outer = wl[0]
+        posv = outer.target.id if isinstance(outer.target, ast.Name) else (outer.target.elts[0].id if isinstance(outer.target, ast.Tuple) and isinstance(outer.target.elts[0], ast.Name) else None)
+        conds = reach_conds(outer.body, wr[0]) or []
+        for t_, pol in conds:
+            if posv and names_in(t_) <= {posv}:
+                keep_all_real = pred_is(t_ if pol else ast.UnaryOp(op=ast.Not(), operand=t_), lambda e: True, {posv: 'p'}, consts=(0, 1)) or \
+                    _holds_for_nonnegative(t_, pol, posv)
+                if not keep_all_real:
+                    okw = False
+                    wdetail = f'the writer skips positions by `{"" if pol else "not "}{src(t_)}`: a real 0-based position (0 = first base of the contig) is not written'
+            else:
+                okw = False
+                wdetail = f'the writer filters entries by `{src(t_)}` (not decided)'
+    ctx.emit('C18-R4', okw, ALLELES, wr[0], f'writer: {wdetail}', key='writer-writes-every-position', what='write_cache drops real positions from the cache file')
     st = [s for s in walk_no_nested(r) if isinstance(s, ast.Assign) and src(s.targets[0]).startswith('self.locationToAllele[')]
     # the position key of the stored entry is int(<first field of the record>)
     ints = False
@@ -505,6 +538,50 @@ def r5(ctx):
             f'store decision differs at (used, bad, filter active, filter hits)={problems[0][0]}: stored {problems[0][1]}, expected {problems[0][2]}'
     zero_based = any(isinstance(x, ast.Assign) and src(x.value) == 'bases_to_alleles' and 'rec.pos - 1' in src(x.targets[0]).replace('\n', ' ') for x in walk_no_nested(loop))
     ctx.emit('C18-R5', okstore and zero_based, ALLELES, dec[0] if dec else loop, detail + ('' if zero_based else '; the position key is not rec.pos - 1'), key='store-guard')
+    # an unselected sample is inert: with a sample outside the selection, no path through the per-sample loop body changes anything the
+    # record's verdict depends on (flags, the base -> samples mapping, the set of assigned samples)
+    sloops = [l for l in walk_no_nested(loop) if isinstance(l, ast.For) and '.samples' in src(l.iter)]
+    if sloops:
+        sl = sloops[0]
+        sv = sl.target.elts[0].id if isinstance(sl.target, ast.Tuple) and isinstance(sl.target.elts[0], ast.Name) else (sl.target.id if isinstance(sl.target, ast.Name) else None)
+        leaks = []
+        if sv:
+            rs = explore(sl.body, mk_atoms({'self.select_samples is not None': True, f'{sv} not in self.select_samples': True, f'{sv} in self.select_samples': False}), names=None)
+            for r in rs:
+                changed = sorted(set(r['env']) - {sv}) + [t for t, v, k in r['stores']] + [c for c in r['calls'] if c.split('(')[0].endswith(('.add', '.append', '.update'))]
+                if changed:
+                    leaks.append(changed)
+        ctx.emit('C18-R5', bool(sv) and not leaks, ALLELES, sl, 'a sample outside the selection changes nothing of the record state' if sv and not leaks else
+                 f'a sample that is not selected still changes {leaks[0] if leaks else None} (e.g. its missing genotype marks the site monomorphic)', key='unselected-sample-inert',
+                 what='fetchChromosome: an unselected sample influences the verdict of the record')
+    # unphased records: every allele is labelled, and only when all alleles of the record are single bases
+    lab = [l for l in walk_no_nested(loop) if isinstance(l, ast.For) and 'rec.alleles' in src(l.iter) and 'zip' in src(l.iter)]
+    if lab:
+        ll = lab[0]
+        adds = [c for c in walk_no_nested(ll) if isinstance(c, ast.Call) and isinstance(c.func, ast.Attribute) and c.func.attr == 'add' and 'bases_to_alleles' in src(c.func.value)]
+        inner_ok = bool(adds) and all(not (reach_conds(ll.body, c) or []) for c in adds) and not any(isinstance(x, (ast.Continue, ast.Break)) for x in walk_no_nested(ll))
+        conds = reach_conds(loop.body, ll) or []
+        snv = [(t_, pol) for t_, pol in conds if 'rec.alleles' in src(t_) and 'len(' in src(t_)]
+
+        def is_all_single(t_, pol):
+            # `all(len(a) == 1 for a in rec.alleles)` holding, or its negation / `any(len(a) != 1 ...)` not holding
+            if isinstance(t_, ast.UnaryOp) and isinstance(t_.op, ast.Not):
+                return is_all_single(t_.operand, not pol)
+            if not (isinstance(t_, ast.Call) and isinstance(t_.func, ast.Name) and t_.func.id in ('all', 'any') and t_.args and isinstance(t_.args[0], (ast.GeneratorExp, ast.ListComp))):
+                return False
+            g_ = t_.args[0]
+            if len(g_.generators) != 1 or g_.generators[0].ifs or src(g_.generators[0].iter) != 'rec.alleles' or not isinstance(g_.generators[0].target, ast.Name):
+                return False
+            a_ = g_.generators[0].target.id
+            e_ = src(g_.elt)
+            if t_.func.id == 'all':
+                return pol and e_ in (f'len({a_}) == 1', f'1 == len({a_})')
+            return (not pol) and e_ in (f'len({a_}) != 1', f'1 != len({a_})', f'1 < len({a_})', f'len({a_}) > 1')
+        guard_ok = any(is_all_single(t_, pol) for t_, pol in snv)
+        ctx.emit('C18-R5', inner_ok and guard_ok, ALLELES, ll, 'unphased records are labelled allele by allele without exception, and only when every allele is a single base' if inner_ok and guard_ok else
+                 ('the labelling loop skips / filters alleles: a record with a multi-base allele is kept with its single-base alleles' if not inner_ok else
+                  'the labelling of an unphased record is not guarded by "all alleles are single bases"'), key='unphased-snv-only',
+                 what='fetchChromosome: an unphased record with a multi-base allele is not rejected as a whole')
     # sample selection
     sel = [s for s in walk_no_nested(loop) if isinstance(s, ast.If) and src(s.test) == 'self.select_samples is not None and sample not in self.select_samples' and isinstance(s.body[0], ast.Continue)]
     ctx.emit('C18-R5', len(sel) == 1, ALLELES, sel[0] if sel else loop, 'unselected samples are skipped', key='sample-selection', nontrivial=False)
